@@ -219,3 +219,44 @@ class Ev:
                 return sym('%s(%s)' % (nm, ', '.join(parts)))
             raise Unknown('call')
         raise Unknown(str(k))
+
+
+def cmp_diffs(E, fn, depth=3):
+    """every ordering comparison of a function as a polynomial e with the meaning  e >= 0  (lets evaluated in order; parameters and
+    pattern bindings are symbols @name). Returns [(poly, node)]."""
+    from .facts import walk, pat_binds
+    env = {}
+    for p in fn.params:
+        for b in pat_binds(p):
+            env[b['id']] = sym('@' + b['n'])
+    for x in walk(fn.body):
+        pats = []
+        if x.get('k') == 'Match':
+            pats = [a.get('p') for a in x.get('arms', [])]
+        elif x.get('k') in ('For', 'Let', 'Closure'):
+            pats = [x.get('p')] + list(x.get('ps', []) if isinstance(x.get('ps'), list) else [])
+        for p in pats:
+            if isinstance(p, dict):
+                for b in pat_binds(p):
+                    if b.get('id') not in env:
+                        env[b['id']] = sym('@' + b.get('n', '?'))
+    for x in walk(fn.body):
+        if x.get('k') == 'Let' and 'i' in x and x['p'].get('k') == 'Bind':
+            try:
+                env[x['p']['id']] = E.ev(fn, x['i'], env, depth)
+            except Unknown:
+                env[x['p']['id']] = sym('@' + x['p'].get('n', '?'))
+    out = []
+    for x in walk(fn.body):
+        if x.get('k') == 'Bin' and x.get('op') in ('Lt', 'Le', 'Gt', 'Ge'):
+            try:
+                d = add(E.ev(fn, x['l'], env, depth), E.ev(fn, x['r'], env, depth), -1)
+            except Unknown:
+                continue
+            op = x['op']
+            if op in ('Le', 'Lt'):
+                d = add({}, d, -1)
+            if op in ('Gt', 'Lt'):
+                d = add(d, const(1), -1)
+            out.append((d, x))
+    return out
